@@ -71,6 +71,57 @@ enum Verdict {
     Panic(String),
 }
 
+/// A seeded history of SatSolver operations (also used by C16 as its raw-API workload).
+pub fn gen_case(run_seed: u64) -> C15Case {
+    let mut rng = Rng::sub(run_seed, "workload");
+    let nv = rng.range(1, 8);
+    let n_ops = rng.range(5, 40);
+    let w_add = rng.range(2, 8);
+    let w_res = rng.range(0, 2);
+    let w_solve = rng.range(1, 5);
+    let mut ops = vec![];
+    let lit = |rng: &mut Rng, nv: usize| {
+        let v = rng.range(1, nv) as i32;
+        if rng.bool() {
+            v
+        } else {
+            -v
+        }
+    };
+    for _ in 0..n_ops {
+        match rng.weighted(&[w_add, w_res, w_solve]) {
+            0 => {
+                let len = rng.weighted(&[1, 6, 8, 5, 2]);
+                let hi = if rng.chance(1, 8) { (nv + 2).min(MAXV) } else { nv };
+                let mut c: Vec<i32> = (0..len).map(|_| lit(&mut rng, hi)).collect();
+                if rng.chance(1, 10) && !c.is_empty() {
+                    let x = c[0];
+                    c.push(-x); // tautology
+                }
+                ops.push(SatOp::Add(c));
+            }
+            1 => ops.push(SatOp::Reserve(rng.range(1, MAXV))),
+            _ => {
+                let k = rng.weighted(&[4, 3, 2, 1]);
+                // assumptions, sometimes on never-seen variables
+                let hi = if rng.chance(1, 4) { MAXV } else { nv };
+                ops.push(SatOp::Solve((0..k).map(|_| lit(&mut rng, hi)).collect()));
+                if rng.chance(1, 3) {
+                    ops.push(SatOp::Solve(vec![])); // assumptions must not persist
+                }
+            }
+        }
+    }
+    ops.push(SatOp::Solve(vec![]));
+    let mut orng = Rng::sub(run_seed, "oracle");
+    let mut oracle = OracleCfg::draw(&mut orng);
+    if oracle.policy == Policy::Cadical {
+        oracle.policy = Policy::Uniform;
+    }
+    let mut prng = Rng::sub(run_seed, "delivery");
+    C15Case { ops, oracle, plan: ReplyPlan::draw(&mut prng), vary_plan: prng.bool(), process: prng.chance(1, 200) }
+}
+
 impl Property for C15 {
     fn id(&self) -> &'static str {
         "C15"
@@ -82,53 +133,7 @@ impl Property for C15 {
         }
     }
     fn gen(&self, run_seed: u64, _tier: Tier) -> Value {
-        let mut rng = Rng::sub(run_seed, "workload");
-        let nv = rng.range(1, 8);
-        let n_ops = rng.range(5, 40);
-        let w_add = rng.range(2, 8);
-        let w_res = rng.range(0, 2);
-        let w_solve = rng.range(1, 5);
-        let mut ops = vec![];
-        let lit = |rng: &mut Rng, nv: usize| {
-            let v = rng.range(1, nv) as i32;
-            if rng.bool() {
-                v
-            } else {
-                -v
-            }
-        };
-        for _ in 0..n_ops {
-            match rng.weighted(&[w_add, w_res, w_solve]) {
-                0 => {
-                    let len = rng.weighted(&[1, 6, 8, 5, 2]);
-                    let hi = if rng.chance(1, 8) { (nv + 2).min(MAXV) } else { nv };
-                    let mut c: Vec<i32> = (0..len).map(|_| lit(&mut rng, hi)).collect();
-                    if rng.chance(1, 10) && !c.is_empty() {
-                        let x = c[0];
-                        c.push(-x); // tautology
-                    }
-                    ops.push(SatOp::Add(c));
-                }
-                1 => ops.push(SatOp::Reserve(rng.range(1, MAXV))),
-                _ => {
-                    let k = rng.weighted(&[4, 3, 2, 1]);
-                    // assumptions, sometimes on never-seen variables
-                    let hi = if rng.chance(1, 4) { MAXV } else { nv };
-                    ops.push(SatOp::Solve((0..k).map(|_| lit(&mut rng, hi)).collect()));
-                    if rng.chance(1, 3) {
-                        ops.push(SatOp::Solve(vec![])); // assumptions must not persist
-                    }
-                }
-            }
-        }
-        ops.push(SatOp::Solve(vec![]));
-        let mut orng = Rng::sub(run_seed, "oracle");
-        let mut oracle = OracleCfg::draw(&mut orng);
-        if oracle.policy == Policy::Cadical {
-            oracle.policy = Policy::Uniform;
-        }
-        let mut prng = Rng::sub(run_seed, "delivery");
-        serde_json::to_value(C15Case { ops, oracle, plan: ReplyPlan::draw(&mut prng), vary_plan: prng.bool(), process: prng.chance(1, 200) }).unwrap()
+        serde_json::to_value(gen_case(run_seed)).unwrap()
     }
     fn exec(&self, case: &Value) -> RunResult {
         let case: C15Case = serde_json::from_value(case.clone()).expect("C15 case");
